@@ -31,7 +31,8 @@ EXPLANATION = (
     'rebound on the generate path before it is read; clear_output_buffer brackets every output '
     'context. R3: lists the whitelist filter rebuilds from sets are assigned only to registries '
     'ApiNamespace.normalize sorts, and normalize follows the filter. Decides these structural '
-    'parts (closest of all properties to the behaviour itself).')
+    'parts (closest of all properties to the behaviour itself).'
+    ' R5 (imported from C15-R3): the class-level typing-import tracker is reset at the start of every module, so output does not depend on what ran earlier in the process.')
 ASSUMPTIONS = [
     'dicts preserve insertion order (CPython >= 3.7); a dict built in a deterministic order is '
     'ordered',
@@ -268,7 +269,9 @@ def run(pm, ctx):
                        'every path')
     sorted_returns(pm, ctx, 'C12-R4')
     ctx.extra['injectivity_facts_used'] = sorted('%s key=%s' % x for x in used_facts)
-
+    ctx.import_rules(pm, 'C15', {'C15-R3'}, 'C12-R5',
+                     'the stub import tracker is cleared before every module (shared with '
+                     'C15-R3)')
 
 def _raw_unordered(ot, f, e, at):
     """Does expression e syntactically involve a set-built value (so that its
